@@ -27,6 +27,43 @@ check("C18",
       "excluded (C06). " + TRUST,
       "SSA symbolic execution + SMT (z3 bit-vectors), native replay of counterexamples", "DESIGN.md §4 C18")
 
+SHAPES = ("Program shape is enumerated by the host (all typed shapes with <=2 internal nodes quick / larger thorough, plus a jump-stress family; "
+          "grammar in DESIGN.md §3); everything else - variable values, failures, availability, constants, custom-operator behaviour, costs - is a solver "
+          "variable, so one symbolic path covers all 2^64 values per variable. ")
+
+check("C01",
+      "Bounded symbolic execution of the real Compile (lexer, parser, check, buildExpr) and Expr.Eval/EvalBool on each shape with optimisations off, "
+      "against a reference left-to-right short-circuit evaluator held in the harness: value, error-ness and identity of the fetcher's/operator's own "
+      "error are asserted on every path (unsat = holds for all bindings, incl. unbound and wrong-typed variables and failing custom operators). " + SHAPES,
+      "Bound: shapes <=2 internal nodes (quick) over one representative operator per class; registration modes explicit keys / undefined-variable / "
+      "constant-shadows-variable. Operators individually: C18. " + TRUST,
+      "SSA symbolic execution + SMT vs reference evaluator, native replay", "DESIGN.md §4 C01")
+check("C02",
+      "Each shape is compiled under all 16 optimisation subsets inside one symbolic run and evaluated on one shared symbolic binding; A1 (any two "
+      "configurations that both return a value agree), A2 (strict success => every configuration returns it), A3 (Reordering off and unoptimised "
+      "success => same value) are asserted pairwise; constants are symbolic so constant folding is executed on arbitrary values; costs are symbolic "
+      "integer-valued doubles (every order the stable sort can produce is a path) plus concrete NaN/Inf/-0/0.5/1e300; the directive form is compared "
+      "with the option form over all 3^4 directive combinations (concrete). " + SHAPES,
+      "Bound: shapes <=2 internal nodes quick; symbolic costs |c|<=2^40 integer-valued (exact as SMT Int), non-integer/NaN/Inf only as concrete values. " + TRUST,
+      "SSA symbolic execution + SMT, relational (16 programs per query), native replay", "DESIGN.md §4 C02")
+check("C03",
+      "The sequence of VariableFetcher.Get calls and registered-operator calls (arguments and results as symbolic terms) made by the real Eval is "
+      "compared element-wise with the trace of a reference short-circuit evaluator run on the tree re-read from Dump, for all 16 subsets on every "
+      "symbolic path; with FastEvaluation on, the permitted two-leaf relaxation is accepted as an alternative trace. " + SHAPES,
+      "Bound: shapes <=2 internal nodes quick; fetches may fail in mode f. " + TRUST,
+      "SSA symbolic execution + SMT, effect-log equality vs reference trace", "DESIGN.md §4 C03")
+check("C04",
+      "TryEval under an arbitrary availability mask (one symbolic Boolean per variable) is compared with Eval where the unavailable variables take "
+      "fresh symbolic values (= every completion), with TryEval under an arbitrary larger mask, and with Eval when everything is available; "
+      "a definite answer contradicted by any completion is a sat query. " + SHAPES,
+      "Bound: shapes <=2 internal nodes; quick runs 5 covering optimisation subsets per shape, thorough all 16. Eval on the completion is assumed to succeed (quantifier). " + TRUST,
+      "SSA symbolic execution + SMT, completions as fresh symbols", "DESIGN.md §4 C04")
+check("C05",
+      "TryEval is compared with a strong-Kleene reference evaluator over the source tree under an arbitrary availability mask and arbitrary values; "
+      "Kleene-definite => TryEval returns that value; undecided => exactly DNE with nil error and TryEvalBool = ErrDNE. " + SHAPES,
+      "Bound: shapes <=2 internal nodes; quick runs 5 covering optimisation subsets, thorough all 16; sub-expressions assumed not to fail (quantifier). " + TRUST,
+      "SSA symbolic execution + SMT vs Kleene reference", "DESIGN.md §4 C05")
+
 def main():
     checks = []
     for pid in ALL:
